@@ -332,7 +332,9 @@ def opt(x: List[Any]) -> Any:
 class Check(PropertyCheck):
     id = 'C05'
     props_module = 'Props.C05'
-    models = {'mro': 'XMro.v', 'c3': 'XC3.v'}
+    models = {'mro': 'XMro.v', 'c3': 'XC3.v', 'mro_ir': 'XMroIR.v'}
+    needs_gen = True
+    gen_modules = ['gen_c05_code']
     rule = ('every class hierarchy of <= N classes (class i: every ordered choice of distinct bases among classes 1..i-1), each '
             'decided three ways (CPython type(), pydoctor.mro.mro on the graph, the real builder on generated multi-module '
             'source) + hierarchies with repeated bases + random hierarchies of 6-14 classes with members + cyclic graphs + '
@@ -343,6 +345,11 @@ class Check(PropertyCheck):
         'extraction: ExtrOcamlBasic only; OCaml 4.13.1; coq/ocaml/driver.ml',
         'Spec/C3.v is a hand transcription of CPython 3.12 Objects/typeobject.c pmerge/mro_implementation; validated on '
         'every case of every run against type(name, bases, {}).__mro__ / TypeError (and functools._c3_merge for raw merges)',
+        'translator harness/gen/gen_c05_code.py (fail-closed; Python ast of pydoctor/mro.py -> Gen/MroCode.v, regenerated on every '
+        'run) and the meaning Model/MroIR.v gives to its small language; stated assumptions about library calls: deque(iterable) '
+        'copies the items in order; d[0]/len/popleft/bool(d) as for a list; islice(d, a, b) consumed at once yields d[a:b]; '
+        '`x in it` is any(y == x); any/all/map(lambda) as comprehensions; getbases is a pure function; value semantics '
+        '(mutations are written back to the receiver / to the element of a `for i in s._lists` loop, refused elsewhere)',
         'correspondence harness harness/c05.py + harness/impl/c05_mro.py + harness/impl/c05_builder.py',
         'modelled not verified: which object a base expression denotes (C04/C06); the `_finalbaseobjects is not None` '
         'shortcut of init_finalbaseobjects; Class.allbases on cyclic hierarchies (walks the bases resolved at visit time); '
@@ -354,7 +361,11 @@ class Check(PropertyCheck):
                  'duplicate bases included -- C05_mro_equal / C05_init_mro_equal; fuel never runs out -- C05_fuel*; C3 sanity -- '
                  'C05_mro_c3; cycles are reported -- C05_cycle_reported; Class.find / get_docstring / inherited-member tables follow '
                  'attribute lookup along the MRO -- C05_find_lookup / C05_docsources / C05_unmasked. The model is tied to '
-                 'pydoctor by an exhaustive correspondence check (every hierarchy of <= 4 classes quick / <= 5 thorough, 10,573) '
+                 'pydoctor (a) by translation: every function body of pydoctor/mro.py (Dependency.head/tail, DependencyList.__init__/'
+                 '__contains__/heads/tails/exhausted/remove, _merge, mro) is translated statement by statement from the current source '
+                 'into the deep-embedded language of Model/MroIR.v on every run, and C05_code_*_is_model prove, for all inputs, that '
+                 'interpreting that code is the model (C05_code_mro_is_python: it computes CPython\'s MRO); (b) for model.py / '
+                 'templatewriter by an exhaustive correspondence check (every hierarchy of <= 4 classes quick / <= 5 thorough, 10,573) '
                  'three ways, and the specification to CPython by the same enumeration.'),
         'note': ('Trusted: Coq kernel, extraction + OCaml driver, Python harness, transcription of typeobject.c (validated against '
                  'type()). Residual: base-expression resolution (C04/C06), allbases fallback on cyclic hierarchies, visibility.'),
@@ -453,9 +464,15 @@ class Check(PropertyCheck):
         wires = [model_hier_input(c['h']) for c in cases]
         mod = self.model('mro', wires)
         spec = self.model('c3', wires)
+        irs = self.model('mro_ir', wires)
         nt = set()
-        for c, o, m, s in zip(cases, obs, mod, spec):
+        for c, o, m, s, ir in zip(cases, obs, mod, spec, irs):
             mm, ss = dec(m), dec(s)
+            ir_view = [[e[0], [e[1][0], e[1][1]]] for e in dec(ir)]
+            if ir_view != [[e[0], e[1][:2]] for e in o['impl']] and sum(1 for v in out if v.kind == 'correspondence') < 10:
+                out.append(Violation('correspondence', 'the code translated from pydoctor/mro.py (Gen/MroCode.v, interpreted by '
+                                     'Model.MroIR) and pydoctor.mro.mro disagree: the translator or the statement language '
+                                     'misrepresents the source', case=c, expected=ir_view, observed=o['impl']))
             spec_view = [[e[0], [e[1][0], e[1][1]]] for e in ss]
             if spec_view != o['py']:
                 raise RuntimeError('SPEC VALIDATION FAILED (defect of the verification, not of pydoctor): Spec/C3.v '
@@ -480,8 +497,13 @@ class Check(PropertyCheck):
         wires = [enc([0, c['ls']]) for c in cases]
         mod = self.model('mro', wires)
         spec = self.model('c3', wires)
-        for c, o, m, s in zip(cases, obs, mod, spec):
+        irs = self.model('mro_ir', wires)
+        for c, o, m, s, ir in zip(cases, obs, mod, spec, irs):
             mm, ss = dec(m), dec(s)
+            if dec(ir) != o['impl'][:2] and sum(1 for v in out if v.kind == 'correspondence') < 10:
+                out.append(Violation('correspondence', 'the code translated from pydoctor/mro.py (Gen/MroCode.v, interpreted by '
+                                     'Model.MroIR) and pydoctor.mro._merge disagree: the translator or the statement language '
+                                     'misrepresents the source', case=c, expected=dec(ir), observed=o['impl']))
             if ss != o['py']:
                 raise RuntimeError('SPEC VALIDATION FAILED (defect of the verification, not of pydoctor): Spec/C3.v pmerge '
                                    'answers %s, functools._c3_merge answers %s on %s' % (ss, o['py'], c['ls']))
